@@ -1,6 +1,6 @@
 """C13 - conversion functions are mutually consistent and round-trip through strings."""
 import os
-from lib import driver as D, machine as M
+from lib import driver as D, machine as M, nodetrace as NT
 
 MUTANTS = ["convertsIgnoresTo", "toIntegerAcceptsDecimalString", "toDecimalAcceptsExponent", "toDateKeepsTime"]
 # programs per case: to, conv, toto, strto (+ strconv when x is already of type T), + receiver alone + receiver.toString()
@@ -47,6 +47,10 @@ def run(ctx):
     step = max(1, len(obs) // 5)
     # programs of the whole abstract machine whose last step is one of this property's operations (lib/machine.py)
     verdicts = M.extend(ctx, verdicts, by_id)
+    # node-level trace validation (spec/FPNodeTrace.tla): every conversion node inside the repository's own tests, the machine
+    # programs and a spread of the cases above is judged by FPConvert's table on the node's logged input value (law convfn)
+    verdicts = NT.extend(ctx, verdicts, by_id, reruns=[
+        (binary, ["run", NT.sample_cases(ctx, ctx.path("allcases.ndjson"), 1500 if ctx.tier == "quick" else 12000), ctx.path("obs_traced.ndjson")])])
     return D.finish(
         ctx, verdicts, by_id, evaluations=len(obs) + 2 * (n_tlc + len(seeded)),
         rule="every pool item (all System types, precisions, boundaries; %d strings of the valid/near-valid grammar pool) as literal, "
